@@ -6,28 +6,29 @@ EXTENDS RefCount, Json, IOUtils
 VARIABLE l
 TraceLog == ndJsonDeserialize(IOEnv.TRACE)
 
-ResetTo(k) ==
-  /\ kind' = k
+ResetTo(k, tl) ==
+  /\ kind' = k /\ tlen' = tl
   /\ holds' = [h \in Handles |-> 0] /\ copyh' = [h \in Handles |-> 0] /\ hascopy' = FALSE
   /\ extra' = [o \in Objs |-> 0] /\ defer' = [o \in Objs |-> 0] /\ made' = 0
+  /\ inner' = [o \in Objs |-> 0] /\ origin' = [o \in Objs |-> 0]
   /\ cnt' = [o \in Objs |-> IF k = "bare" /\ o = 1 THEN 1 ELSE 0] /\ alive' = [o \in Objs |-> FALSE]
   /\ snd' = [o \in Objs |-> TRUE] /\ tries' = [o \in Objs |-> 0]
   /\ obs' = [a |-> "init", arg |-> [kind |-> k, nh |-> NH, nobj |-> NObj, max |-> Max],
-             exp |-> [ret |-> "ok", href |-> [h \in Handles |-> 0], copy |-> [h \in Handles |-> 0],
-                      alive |-> [o \in Objs |-> 0], gone |-> <<>>, cnt |-> [o \in Objs |-> -1],
-                      shared |-> [o \in Objs |-> -1], val |-> -1, bare |-> IF k = "bare" THEN 1 ELSE -1, badfree |-> 0, quiet |-> 0]]
+             exp |-> TeardownExp(k, [o \in Objs |-> FALSE], [o \in Objs |-> IF k = "bare" /\ o = 1 THEN 1 ELSE 0])]
 
 Step(ev) ==
-  CASE ev.a = "init"      -> ev.arg.nh = NH /\ ev.arg.nobj = NObj /\ ev.arg.max = Max /\ ResetTo(ev.arg.kind)
-    [] ev.a = "create"    -> Create(ev.arg.h)
-    [] ev.a = "copy"      -> Copy(ev.arg.h, ev.arg.g, ev.arg.via)
+  CASE ev.a = "init"      -> ev.arg.nh = NH /\ ev.arg.nobj = NObj /\ ev.arg.max = Max /\ ResetTo(ev.arg.kind, ev.arg.tlen)
+    [] ev.a = "create"    -> ev.arg.len = tlen /\ Create(ev.arg.h)
+    [] ev.a = "copy"      -> Copy(ev.arg.h, ev.arg.g, ev.arg.via, ev.arg.sin)
+    [] ev.a = "nest"      -> Nest(ev.arg.h, ev.arg.g, ev.arg.via)
+    [] ev.a = "teardown"  -> Teardown
     [] ev.a = "drop"      -> Drop(ev.arg.h, ev.arg.via)
     [] ev.a = "move"      -> Move(ev.arg.h, ev.arg.g)
     [] ev.a = "detach"    -> Detach(ev.arg.h)
     [] ev.a = "adopt"     -> Adopt(ev.arg.h, ev.arg.o)
     [] ev.a = "rawref"    -> RawRef(ev.arg.o)
     [] ev.a = "rawunref"  -> RawUnref(ev.arg.o)
-    [] ev.a = "defer"     -> Defer(ev.arg.o)
+    [] ev.a = "defer"     -> Defer(ev.arg.o, ev.arg.armed)
     [] ev.a = "undefer"   -> Undefer(ev.arg.o, ev.arg.msg, ev.arg.accept)
     [] ev.a = "reply"     -> ReplyCtx(ev.arg.o, ev.arg.msg, ev.arg.accept)
     [] ev.a = "poke"      -> Poke(ev.arg.o, ev.arg.v)
@@ -44,23 +45,23 @@ SeqSet(s) == {s[i] : i \in 1..Len(s)}
 Matches(ev) ==
   LET e == obs'.exp  o == ev.obs IN
   /\ (e.ret # "any" => e.ret = o.ret)
-  /\ e.href = o.href /\ e.copy = o.copy /\ e.alive = o.alive
+  /\ e.href = o.href /\ e.copy = o.copy /\ e.alive = o.alive /\ e.inner = o.inner
   /\ Len(e.gone) = Len(o.gone) /\ SeqSet(e.gone) = SeqSet(o.gone)
-  /\ e.cnt = o.cnt /\ e.shared = o.shared /\ e.bare = o.bare
+  /\ e.cnt = o.cnt /\ e.bare = o.bare
+  \* buffers always show their shared flag; a metatype only when it exposes a text buffer
+  /\ \A x \in Objs : e.shared[x] = o.shared[x] \/ (kind' # "buf" /\ (e.shared[x] = -1 \/ o.shared[x] = -1))
   /\ (e.val # -1 => e.val = o.val)
   /\ (e.quiet = 0 => o.quiet = 0)
   /\ e.badfree = o.badfree
 
 TraceInit ==
-  /\ l = 1 /\ kind = "bare"
+  /\ l = 1 /\ kind = "bare" /\ tlen = 0
   /\ holds = [h \in Handles |-> 0] /\ copyh = [h \in Handles |-> 0] /\ hascopy = FALSE
   /\ extra = [o \in Objs |-> 0] /\ defer = [o \in Objs |-> 0] /\ made = 0
+  /\ inner = [o \in Objs |-> 0] /\ origin = [o \in Objs |-> 0]
   /\ cnt = [o \in Objs |-> 0] /\ alive = [o \in Objs |-> FALSE]
   /\ snd = [o \in Objs |-> TRUE] /\ tries = [o \in Objs |-> 0]
-  /\ obs = [a |-> "none", arg |-> [x |-> 0],
-            exp |-> [ret |-> "ok", href |-> [h \in Handles |-> 0], copy |-> [h \in Handles |-> 0],
-                     alive |-> [o \in Objs |-> 0], gone |-> <<>>, cnt |-> [o \in Objs |-> -1],
-                     shared |-> [o \in Objs |-> -1], val |-> -1, bare |-> 0, badfree |-> 0, quiet |-> 0]]
+  /\ obs = [a |-> "none", arg |-> [x |-> 0], exp |-> TeardownExp("bare", [o \in Objs |-> FALSE], [o \in Objs |-> 0])]
 
 TraceNext ==
   /\ l <= Len(TraceLog)
